@@ -106,19 +106,36 @@ theorem writer_region_is_free (hN : 1 ≤ N) (hc : Client wt rt useLock progs)
     have := inv.free_mark (k := s.CR) inv.crok.2 hM
     omega
 
-/-- **Clause 3 (no wedge).** `wedge` counts the allocations that failed although (a) the ring was
-drained when the allocation started (everything committed had been consumed; sampled once no other
-writer can commit any more) and (b) the request was at most `N/2 − 1` cache lines *including* the
-overhead of `MUGGLE_SHM_RINGBUF_CAL_BYTES_CACHELINE` (`ncl + 1 ≤ N/2`). It stays 0 — for every
-history of earlier requests, of any sizes. The constant is exact, see `half_ring_bound_is_tight`. -/
-theorem no_wedge (hN : 1 ≤ N) (hc : Client wt rt useLock progs)
+/-- **Clause 3, the statement of the property, literally** ("a drained ring always accepts a message
+of up to half its size"): whenever an allocation that started on a drained ring reaches the second
+test of `w_alloc_cachelines` with a message of at most half the ring's bytes (`n ≤ 32·N`, i.e. up to
+`N/2 + 3` cache lines with the overhead), `cached_remain` covers the request, so `NULL` is not
+returned. **This is false for the code** (`no_wedge_literal_fails`); it is recorded in
+known_findings.jsonl (`C08-no-wedge-literal-half-ring`) and checks/C08 probes it on the real code.
+What is proved instead is `no_wedge_partial`: the same with `n_cachelines ≤ N/2 − 1`. -/
+def no_wedge_literal : Prop :=
+  ∀ (N wt rt : Nat) (useLock : Bool) (progs : List (List Op)), 1 ≤ N → Client wt rt useLock progs →
+  ∀ s, Reach step (mkInit N useLock progs).1 s → ∀ t, s.pc t = .a2 → (s.cur t).drained = true →
+  (s.cur t).n ≤ 32 * N → (s.cur t).ncl ≤ s.CR
+
+/-- **Clause 3, what holds (partial).** `wedge` counts the allocations that failed although (a) the
+ring was drained when the allocation started (everything committed had been consumed; sampled once
+no other writer can commit any more) and (b) the request was at most `N/2 − 1` cache lines
+*including* the overhead of `MUGGLE_SHM_RINGBUF_CAL_BYTES_CACHELINE` (`ncl + 1 ≤ N/2`). It stays 0 —
+for every history of earlier requests, of any sizes. **Missing with respect to `no_wedge_literal`:**
+requests of `N/2 … N/2 + 3` cache lines (messages of more than `64·(N/2 − 3) − 8` but at most `32·N`
+bytes; every message when `N = 4`): the code refuses them at the middle cursor positions, for ever
+(`no_wedge_literal_fails`, `half_ring_bound_is_tight`, `ring_of_four_wedges`), so the constant
+`N/2 − 1` is exact and the missing part is not provable. -/
+theorem no_wedge_partial (hN : 1 ≤ N) (hc : Client wt rt useLock progs)
     (s : St) (hr : Reach step (mkInit N useLock progs).1 s) : s.wedge = 0 :=
   (reach_inv hN hc s hr).cnt.2.2.2.2.1
 
-/-- **Clause 3, direct form.** At the second test of `w_alloc_cachelines` (program counter `a2`,
-after `update_cached_remain`), an allocation that started on a drained ring with a request of at
-most `N/2 − 1` cache lines finds `cached_remain ≥ request`: it does not return `NULL`. -/
-theorem drained_ring_accepts (hN : 1 ≤ N) (hc : Client wt rt useLock progs)
+/-- **Clause 3, direct form (partial, same bound).** At the second test of `w_alloc_cachelines`
+(program counter `a2`, after `update_cached_remain`), an allocation that started on a drained ring
+with a request of at most `N/2 − 1` cache lines finds `cached_remain ≥ request`: it does not return
+`NULL`. This is `no_wedge_literal` with `ncl + 1 ≤ N/2` in place of `n ≤ 32·N`. -/
+theorem drained_ring_accepts_partial (hN : 1 ≤ N) (hc : Client wt rt useLock progs)
     (s : St) (hr : Reach step (mkInit N useLock progs).1 s) (t : Nat) (hpc : s.pc t = .a2)
     (hd : (s.cur t).drained = true) (hk : (s.cur t).ncl + 1 ≤ s.N / 2) : (s.cur t).ncl ≤ s.CR := by
   have h := ((reach_inv hN hc s hr).thr t).w
@@ -185,6 +202,24 @@ theorem half_ring_bound_is_tight :
 theorem ring_of_four_wedges :
     let s := (runSched step (mkInit 4 false [[.alloc 1 true, .fetch, .alloc 1 true]]).1 (seqSched 60)).1
     s.committed.length = 1 ∧ s.delivered.length = 1 ∧ s.W = 3 ∧ s.R = 3 ∧ s.fails = 1 ∧ s.wedge = 0 := by
+  decide
+
+/-- **The literal clause 3 is false for the code** (negation witness; the failing input of the known
+finding `C08-no-wedge-literal-half-ring`): ring of 8 cache lines, one thread `a57 f a57`. After 30
+steps the second allocation — started on a drained ring, 57 ≤ 256 bytes — stands at the second test
+with `cached_remain = 3 < 4 = n_cachelines`: it returns `NULL`, and would for ever (both cursors
+stay at 4: `8 − 4 − 1 = 3` lines on the right, `4 − 1 = 3` on the left). -/
+theorem no_wedge_literal_fails : ¬ no_wedge_literal := by
+  intro h
+  have hc : Client 0 0 false [[.alloc 57 true, .fetch, .alloc 57 true]] := by
+    refine ⟨?_, ?_, ?_⟩
+    · intro t op h; rcases t with _ | t <;> simp at h <;> rcases h with rfl | rfl | rfl <;> simp [OpOk]
+    · intro t ht op h; rcases t with _ | t <;> simp at h ht
+    · intro _ t ht op h; rcases t with _ | t <;> simp at h ht
+  have hr := reach_runSched step (mkInit 8 false [[.alloc 57 true, .fetch, .alloc 57 true]]).1 _
+    Reach.init (seqSched 30)
+  have := h 8 0 0 false _ (by decide) hc _ hr 0 (by decide) (by decide) (by decide)
+  revert this
   decide
 
 /-! ## non-vacuity -/
